@@ -133,6 +133,8 @@ def cases(draw, targets=("block", "block", "mvn", "phylo"), max_L=30, phylo_max_
     eps = draw(_logu_grid(eps_lo, 0.5))
     L = draw(st.sampled_from(_spread(range(1, (phylo_max_L if target == "phylo" else max_L) + 1))))
     mass_kind = draw(st.sampled_from(list(masses)))
+    if update:
+        c["update_at"] = draw(st.sampled_from([0, 1]))  # after which trajectory the other parameters change
     if operator:
         c["decisions"] = draw(st.sampled_from([["accept"], ["reject"], ["accept", "reject"], ["reject", "accept"], ["accept", "accept"], ["reject", "reject"]]))
         c["mass_route"] = draw(st.sampled_from(["spec", "assigned"]))
@@ -195,7 +197,6 @@ def cases(draw, targets=("block", "block", "mvn", "phylo"), max_L=30, phylo_max_
             c["hyper2"] = h2
         else:
             c["blocks2"] = [_block(draw, b["kind"], b["n"]) for b in c["blocks"]]
-        c["update_at"] = draw(st.sampled_from([0, 0, 1]))
     if not operator:
         if update:
             c["p1"] = [draw(fl(-3.0, 3.0)) for _ in range(d)]
